@@ -700,6 +700,10 @@ func TestC16Sim(t *testing.T) {
 			s.flipsAfterStop = t.IntRange("nFlips", 1, 12)
 			t.Class("validation-failures-after-stop")
 		}
+		if !graceful && t.Weighted("networkDownAfterStop", 2, 1) == 1 {
+			s.refuseAfterStop = true
+			t.Class("immediate-stop-with-every-request-refused")
+		}
 		flips := s.flipsAfterStop
 		t.Note("@%s STOP graceful=%v (pending requests: %d, data requests to be corrupted afterwards: %d)", s.clock(), graceful, len(s.Pending()), flips)
 		bound := 30 * time.Second
